@@ -184,6 +184,9 @@ func (d *Directory) AddTimeBucket(tbk *io.TimeBucketKey, f *io.TimeBucketInfo) (
 	if err = validateKeyItems(catkeySplit, datakeySplit); err != nil {
 		return err
 	}
+	if err = f.CheckHeaderLimits(); err != nil {
+		return fmt.Errorf("invalid schema for %s: %w", tbk.GetItemKey(), err)
+	}
 
 	dirname := d.GetPath()
 	for i, dataDirName := range datakeySplit {
